@@ -28,6 +28,9 @@ package main
 //	conc <g> <r> <so> <si> <n> n×[fasta|fastq j|g <nr> (<id-hex> <seq-hex> <qual-hex|-> <annspec>)*nr] [+ n×[<floats> (<info-hex> <lib>)*nr]]
 //	                                                            n `rt` cases alone (result = their results joined by " ; "), then the same from g goroutines, r rounds (c02_conc.go)
 //	race conc …                                                 the same case replayed through a `go build -race` build of the harness (thorough tier)
+//	big rt|file|cli<flags> fasta|fastq j|g <so> <si> <n> (<id: alpha+len> <seqlen> <q|-> <annspec by sizes>)*n
+//	                                                            records given by SIZES (c02_big.go): rt = the rt op, file = through a real file and
+//	                                                            ReadSequencesFromFile (1 MiB chunks), cli = the cli op; results are lengths + FNV-1a digests
 import (
 	"bytes"
 	stdjson "encoding/json"
@@ -924,6 +927,8 @@ func (c02) Gen(rng *rand.Rand, tier string, emit func(string)) {
 	}
 	// wave 3, LAST (the cases above keep their PRNG draws): the round trips under concurrent use
 	c02GenConc(rng, tier, emit)
+	// fourth pass, after everything else: sizes at and above the buffer boundaries
+	c02GenBig(rng, tier, emit)
 }
 
 // ---------------------------------------------------------------- execution
@@ -1041,6 +1046,9 @@ func (c02) Exec(c string) (string, []Fail) {
 	}
 
 	switch {
+	case f[0] == "big":
+		// fourth pass: sizes at and above the buffer boundaries (c02_big.go)
+		return c02ExecBig(c, f)
 	case f[0] == "conc":
 		// wave 3: the round trips under concurrent use (c02_conc.go)
 		return c02ExecConc(c, f)
@@ -1276,9 +1284,24 @@ func (c02) Exec(c string) (string, []Fail) {
 		}
 		stage := "parse"
 		r := guardT(10*time.Second, func() string {
-			back = c02Parse(fm, text)
+			if c02BigFile {
+				// fourth pass: the text goes through a real file, the format guesser and the chunked file reader
+				// (1 MiB chunks, parallel parsers), the header parser given as the reader's option
+				stage = "file"
+				var e string
+				back, e = c02ReadViaFile(fm, hp, text)
+				if e != "" {
+					return e
+				}
+			} else {
+				back = c02Parse(fm, text)
+			}
 			// the header bytes the real header parser is going to see
 			for _, s := range back {
+				if c02BigMode {
+					libs = append(libs, "-") // writer-made headers: the model decodes them itself
+					continue
+				}
 				lib, ok := c02Lib(s.Definition())
 				if !ok {
 					bad = true
@@ -1289,7 +1312,9 @@ func (c02) Exec(c string) (string, []Fail) {
 			parser := c02HeaderParser(hp)
 			var parts []string
 			for _, s := range back {
-				parser(s)
+				if !c02BigFile {
+					parser(s)
+				}
 				parts = append(parts, c02RecDump(s))
 			}
 			return strconv.Itoa(len(back)) + " " + strings.Join(parts, " | ")
@@ -1308,8 +1333,8 @@ func (c02) Exec(c string) (string, []Fail) {
 		}
 		caseOverride = aug
 		res := "w=" + hx([]byte(text)) + " r=" + strings.TrimSpace(r)
-		if r == "fatal" || r == "panic" || r == "hang" {
-			fail("rt."+fm+"."+stage+"-"+r, "re-reading %q: %s", text, r)
+		if r == "fatal" || r == "panic" || r == "hang" || strings.HasPrefix(r, "err:") {
+			fail("rt."+fm+"."+stage+"-"+strings.SplitN(r, ":", 2)[0], "re-reading %q: %s", text, r)
 			return res, fails
 		}
 		stat("rt:" + fm + ":" + hp)
